@@ -431,6 +431,25 @@ def judge_conforming(ctx, rng):
             continue
         removed, devs = r
         ctx.case(["conf", markup, kind], nontrivial=bool(removed))
+        if len(markup) % 3 == 0:
+            # the serializer's omit_optional_tags option is this filter applied LAST: after the filters that turn tags into
+            # text (sanitize) or collapse text (strip_whitespace); otherwise the omission decisions are taken on a stream
+            # that is not the one written out
+            import warnings
+            from html5lib import serializer as _ser
+            from html5lib.filters import optionaltags as _ot, sanitizer as _sa
+            try:
+                with warnings.catch_warnings():
+                    warnings.simplefilter("ignore")
+                    a = _ser.HTMLSerializer(omit_optional_tags=True, sanitize=True).render(streams.copy_tokens(tokens))
+                    b = _ser.HTMLSerializer(omit_optional_tags=False).render(_ot.Filter(_sa.Filter(streams.copy_tokens(tokens))))
+                ctx.count("serializer_option_compared_with_filter")
+                if a != b:
+                    ctx.violation("serializer-option-differs-from-filter-applied-last", case,
+                                  "%s walker: omit_optional_tags+sanitize gives %r, sanitizer then this filter gives %r" % (kind, a[:200], b[:200]))
+                    continue
+            except Exception:
+                ctx.count("serializer_raised_in_wiring_clause")
         base = h5.parse_doc(serialize(streams.copy_tokens(tokens)))[0]
         filt = [t for i, t in enumerate(tokens) if i not in removed]
         got2 = h5.parse_doc(serialize(streams.copy_tokens(filt)))[0]
